@@ -11,12 +11,12 @@
    reachable from tail (the ghost flag is set by exactly that event and never reset); for model
    runs of a case this is [known_class c = None] (C05_conservation_on_model_runs).
    STILL NOT PROVED (see level_note): C05_spec_ok_on_model in full (that the trace-level checker
-   spec_ok accepts every model run outside the class); what IS proved about spec_ok is in the
-   last section (C05_spec_ok_sound, C05_spec_no_double_clear_on_model).                        *)
+   spec_ok accepts every model run outside the class); what IS proved about spec_ok is in sections
+   (8) and (9) (C05_spec_ok_sound, C05_spec_ok_on_model_partial and its clauses).              *)
 From Coq Require Import List NArith Bool Arith Permutation Lia.
 Import ListNotations.
 Require Import MV.Common.Interleave MV.C05.Model MV.C05.Spec MV.C05.Exec.
-Require Import MV.C05.ProofsSeq MV.C05.ProofsInv MV.C05.ProofsCor MV.C05.ProofsUniq MV.C05.ProofsCons MV.C05.ProofsProg MV.C05.ProofsSnap MV.C05.ProofsEmpty MV.C05.ProofsOrder MV.C05.ProofsSpec.
+Require Import MV.C05.ProofsSeq MV.C05.ProofsInv MV.C05.ProofsCor MV.C05.ProofsUniq MV.C05.ProofsCons MV.C05.ProofsProg MV.C05.ProofsSnap MV.C05.ProofsEmpty MV.C05.ProofsOrder MV.C05.ProofsSpec MV.C05.ProofsTrace1 MV.C05.ProofsTrace2 MV.C05.ProofsTrace3.
 Local Open Scope nat_scope.
 
 (* (1) complete calls, run one after the other by any threads, are exactly the bag operations:
@@ -318,6 +318,50 @@ Theorem C05_spec_no_double_clear_on_model : forall c : case,
   let '(tr, rss, _, _, _) := run_case c in
   nodupb (flat_map handed (filter is_clear (rcalls tr 0 rss))) = true.
 Proof. exact no_double_clear_on_model. Qed.
+
+(* (9) the checker on the model: clauses of Spec.spec_run proved of the model's own run of EVERY case
+   (every schedule, round-robin tail included; no known-class hypothesis needed for these).
+   FULL STATEMENT NOT PROVED:
+     C05_spec_ok_on_model : forall c, known_class c = None -> spec_ok c (run_case c) = true.
+   Proved: S0 (no anomaly; results shaped like the programs), S1 for the threads (no identity handed
+   to clears twice; no single read handed an identity twice), S2 for the slices handed to the
+   threads' callbacks (each has its 506 position; every value is in the push table with a slot-write
+   position strictly earlier: written-before-read and no fabrication on trace positions).
+   Missing: S1/S2/S4 for the FINAL sequential read (final_data runs a fresh thread on the final
+   shared state; not analysed), S4 (claim positions increase along a slice), S3 (snapshot /
+   is_empty completeness on positions, needs done) and S5 (pushes = cleared + final, needs done and
+   known_class = None): the configuration-level theorems exist (C05_block_order,
+   C05_snapshot_sees_completed, C05_is_empty_sound, C05_conservation_except_late_claim) but are not
+   yet connected to the position tables of the checker. *)
+Theorem C05_spec_shape_on_model : forall c : case,
+  let '(_, rss, _, _, _) := run_case c in all2 follows (progs_of c) rss = true.
+Proof. exact spec_shape_on_model. Qed.
+
+Theorem C05_spec_written_before_read_on_model : forall c : case,
+  let '(tr, rss, _, _, _) := run_case c in
+  forallb (fun rc => forallb (fun qs => slice_genuine (pinfos tr 0 (progs_of c)) (fst qs) (snd qs) &&
+                                         match fst qs with Some _ => true | None => false end) (rsl rc))
+          (rcalls tr 0 rss) = true.
+Proof. exact spec_written_before_read_on_model. Qed.
+
+Theorem C05_spec_reads_no_dup_on_model : forall c : case,
+  let '(tr, rss, _, _, _) := run_case c in
+  forallb (fun rc => nodupb (handed rc)) (rcalls tr 0 rss) = true.
+Proof. exact spec_reads_no_dup_on_model. Qed.
+
+Theorem C05_spec_ok_on_model_partial : forall c : case,
+  let '(tr, rss, done, final, anom) := run_case c in
+  anom = 0%N /\ all2 follows (progs_of c) rss = true /\
+  nodupb (flat_map handed (filter is_clear (rcalls tr 0 rss))) = true /\
+  forallb (fun rc => nodupb (handed rc)) (rcalls tr 0 rss) = true /\
+  forallb (fun rc => forallb (fun qs => slice_genuine (pinfos tr 0 (progs_of c)) (fst qs) (snd qs) &&
+                                         match fst qs with Some _ => true | None => false end) (rsl rc))
+          (rcalls tr 0 rss) = true.
+Proof.
+  intros c. pose proof (spec_shape_on_model c) as H1. pose proof (no_double_clear_on_model c) as H2.
+  pose proof (spec_reads_no_dup_on_model c) as H3. pose proof (spec_written_before_read_on_model c) as H4.
+  unfold run_case, out_gen in *. destruct (run_gen BS true true c) as [cf tr]. auto.
+Qed.
 
 (* Block::len must be trailing_ones, not count_ones: in a reachable configuration where a snapshot
    stands at 506 after a passed quiescence test, a popcount length hands out an unwritten slot,
